@@ -22,7 +22,7 @@ GUARD = (cd.MT_FAILED_MESSAGE, cd.MT_RTMA_LOG, cd.MT_RTMA_LOG_CRITICAL, cd.MT_RT
 SPECIAL = GUARD + (CC,)
 
 
-def run(msg_type, dest_mod, src_mod, ids, lgs, fsubs, csubs):
+def run(msg_type, dest_mod, src_mod, ids, lgs, fsubs, csubs, drops=(0, 0, 0)):
     """returns (exception or None, mm, mods, payload, flags)"""
     rec = sh("rec")
     n = len(rec)
@@ -36,6 +36,8 @@ def run(msg_type, dest_mod, src_mod, ids, lgs, fsubs, csubs):
         m.mod_id = ids[k]
         m.connected = True
         m.name = "m%d" % k
+        m.drops = drops[k]          # arbitrary history: earlier drops / frames already sent on this connection
+        m.msg_count = drops[k] + 3
         if lgs[k]:
             W.make_logger(mm, m)
         if sk == 1:
@@ -73,10 +75,10 @@ def subscribed(k, msg_type, fsubs, csubs):
     return (fsubs[k] and msg_type == FM) or (csubs[k] and msg_type == CC)
 
 
-def oracle(which, msg_type, dest_mod, src_mod, ids, lgs, fsubs, csubs):
+def oracle(which, msg_type, dest_mod, src_mod, ids, lgs, fsubs, csubs, drops=(0, 0, 0)):
     rec = sh("rec")
     n = len(rec)
-    exc, mm, mods, payload = run(msg_type, dest_mod, src_mod, ids, lgs, fsubs, csubs)
+    exc, mm, mods, payload = run(msg_type, dest_mod, src_mod, ids, lgs, fsubs, csubs, drops)
     if exc is not None:
         return False, "exception escaped forward_message: %s: %s" % (type(exc).__name__, exc)
     sub = [subscribed(k, msg_type, fsubs, csubs) for k in range(n)]
@@ -178,50 +180,50 @@ def _pre(msg_type, dest_mod, src_mod, id0, id1, id2, lg0, lg1, lg2, f0, f1, f2, 
     return 0 <= id0 <= 199 and 0 <= id1 <= 199 and 0 <= id2 <= 199
 
 
-def _go(which, msg_type, dest_mod, src_mod, id0, id1, id2, lg0, lg1, lg2, f0, f1, f2, c0, c1, c2):
+def _go(which, msg_type, dest_mod, src_mod, id0, id1, id2, lg0, lg1, lg2, f0, f1, f2, c0, c1, c2, dr0=0, dr1=0):
     n = len(sh("rec"))
-    return oracle(which, msg_type, dest_mod, src_mod, [id0, id1, id2][:n], [lg0, lg1, lg2][:n], [f0, f1, f2][:n], [c0, c1, c2][:n])
+    return oracle(which, msg_type, dest_mod, src_mod, [id0, id1, id2][:n], [lg0, lg1, lg2][:n], [f0, f1, f2][:n], [c0, c1, c2][:n], [dr0, dr1, dr0])
 
 
 def c14(msg_type: int, dest_mod: int, src_mod: int, id0: int, id1: int, id2: int, lg0: bool, lg1: bool, lg2: bool,
-        f0: bool, f1: bool, f2: bool, c0: bool, c1: bool, c2: bool) -> bool:
+        f0: bool, f1: bool, f2: bool, c0: bool, c1: bool, c2: bool, dr0: int, dr1: int) -> bool:
     """
     pre: -2**31 <= msg_type < 2**31 and msg_type != 2147483647
-    pre: 0 <= dest_mod <= 200 and -2**15 <= src_mod < 2**15
+    pre: 0 <= dest_mod <= 200 and -2**15 <= src_mod < 2**15 and 0 <= dr0 < 2**20 and 0 <= dr1 < 2**20
     pre: _pre(msg_type, dest_mod, src_mod, id0, id1, id2, lg0, lg1, lg2, f0, f1, f2, c0, c1, c2)
     post: _
     """
-    return verdict(_go("c14", msg_type, dest_mod, src_mod, id0, id1, id2, lg0, lg1, lg2, f0, f1, f2, c0, c1, c2))
+    return verdict(_go("c14", msg_type, dest_mod, src_mod, id0, id1, id2, lg0, lg1, lg2, f0, f1, f2, c0, c1, c2, dr0, dr1))
 
 
 def c14_reach(msg_type: int, dest_mod: int, src_mod: int, id0: int, id1: int, id2: int, lg0: bool, lg1: bool, lg2: bool,
-              f0: bool, f1: bool, f2: bool, c0: bool, c1: bool, c2: bool) -> bool:
+              f0: bool, f1: bool, f2: bool, c0: bool, c1: bool, c2: bool, dr0: int, dr1: int) -> bool:
     """
     pre: -2**31 <= msg_type < 2**31 and msg_type != 2147483647
-    pre: 0 <= dest_mod <= 200 and -2**15 <= src_mod < 2**15
+    pre: 0 <= dest_mod <= 200 and -2**15 <= src_mod < 2**15 and 0 <= dr0 < 2**20 and 0 <= dr1 < 2**20
     pre: _pre(msg_type, dest_mod, src_mod, id0, id1, id2, lg0, lg1, lg2, f0, f1, f2, c0, c1, c2)
     post: _
     """
-    return reached(_go("c14", msg_type, dest_mod, src_mod, id0, id1, id2, lg0, lg1, lg2, f0, f1, f2, c0, c1, c2))
+    return reached(_go("c14", msg_type, dest_mod, src_mod, id0, id1, id2, lg0, lg1, lg2, f0, f1, f2, c0, c1, c2, dr0, dr1))
 
 
 def c07(msg_type: int, dest_mod: int, src_mod: int, id0: int, id1: int, id2: int, lg0: bool, lg1: bool, lg2: bool,
-        f0: bool, f1: bool, f2: bool, c0: bool, c1: bool, c2: bool) -> bool:
+        f0: bool, f1: bool, f2: bool, c0: bool, c1: bool, c2: bool, dr0: int, dr1: int) -> bool:
     """
     pre: -2**31 <= msg_type < 2**31 and msg_type != 2147483647
-    pre: 0 <= dest_mod <= 200 and -2**15 <= src_mod < 2**15
+    pre: 0 <= dest_mod <= 200 and -2**15 <= src_mod < 2**15 and 0 <= dr0 < 2**20 and 0 <= dr1 < 2**20
     pre: _pre(msg_type, dest_mod, src_mod, id0, id1, id2, lg0, lg1, lg2, f0, f1, f2, c0, c1, c2)
     post: _
     """
-    return verdict(_go("c07", msg_type, dest_mod, src_mod, id0, id1, id2, lg0, lg1, lg2, f0, f1, f2, c0, c1, c2))
+    return verdict(_go("c07", msg_type, dest_mod, src_mod, id0, id1, id2, lg0, lg1, lg2, f0, f1, f2, c0, c1, c2, dr0, dr1))
 
 
 def c07_reach(msg_type: int, dest_mod: int, src_mod: int, id0: int, id1: int, id2: int, lg0: bool, lg1: bool, lg2: bool,
-              f0: bool, f1: bool, f2: bool, c0: bool, c1: bool, c2: bool) -> bool:
+              f0: bool, f1: bool, f2: bool, c0: bool, c1: bool, c2: bool, dr0: int, dr1: int) -> bool:
     """
     pre: -2**31 <= msg_type < 2**31 and msg_type != 2147483647
-    pre: 0 <= dest_mod <= 200 and -2**15 <= src_mod < 2**15
+    pre: 0 <= dest_mod <= 200 and -2**15 <= src_mod < 2**15 and 0 <= dr0 < 2**20 and 0 <= dr1 < 2**20
     pre: _pre(msg_type, dest_mod, src_mod, id0, id1, id2, lg0, lg1, lg2, f0, f1, f2, c0, c1, c2)
     post: _
     """
-    return reached(_go("c07", msg_type, dest_mod, src_mod, id0, id1, id2, lg0, lg1, lg2, f0, f1, f2, c0, c1, c2))
+    return reached(_go("c07", msg_type, dest_mod, src_mod, id0, id1, id2, lg0, lg1, lg2, f0, f1, f2, c0, c1, c2, dr0, dr1))
